@@ -65,12 +65,12 @@ def m_option_map(I, st, c, args, body, t):
     out = []
     if o.may("None"):
         s = st.copy()
-        if I.install_guard(s, o.variants["None"][1]):
+        if I.install_guard(s, o.variants["None"][1], narrowed=len(o.variants) > 1):
             out.append((s, EnumV.none(o.adt)))
     if o.may("Some"):
         s = st.copy()
         g = o.variants["Some"][1]
-        if I.install_guard(s, g):
+        if I.install_guard(s, g, narrowed=len(o.variants) > 1):
             pl = I.resolve(s, o.payload("Some"))
             try:
                 s2, r = I.call_value(s, args[1], [pl])
@@ -85,12 +85,12 @@ def m_option_and_then(I, st, c, args, body, t):
     out = []
     if o.may("None"):
         s = st.copy()
-        if I.install_guard(s, o.variants["None"][1]):
+        if I.install_guard(s, o.variants["None"][1], narrowed=len(o.variants) > 1):
             out.append((s, EnumV.none(o.adt)))
     if o.may("Some"):
         s = st.copy()
         g = o.variants["Some"][1]
-        if I.install_guard(s, g):
+        if I.install_guard(s, g, narrowed=len(o.variants) > 1):
             pl = I.resolve(s, o.payload("Some"))
             try:
                 s2, r = I.call_value(s, args[1], [pl])
@@ -116,12 +116,12 @@ def m_option_filter(I, st, c, args, body, t):
     out = []
     if o.may("None"):
         s = st.copy()
-        if I.install_guard(s, o.variants["None"][1]):
+        if I.install_guard(s, o.variants["None"][1], narrowed=len(o.variants) > 1):
             out.append((s, EnumV.none(o.adt)))
     if o.may("Some"):
         s = st.copy()
         g = o.variants["Some"][1]
-        if I.install_guard(s, g):
+        if I.install_guard(s, g, narrowed=len(o.variants) > 1):
             pl = I.resolve(s, o.payload("Some"))
             cell = I.new_cell(s, pl)
             try:
@@ -198,11 +198,11 @@ def m_is_some_and(I, st, c, args, body, t):
     out = []
     if o.may("None"):
         s = st.copy()
-        if I.install_guard(s, o.variants["None"][1]):
+        if I.install_guard(s, o.variants["None"][1], narrowed=len(o.variants) > 1):
             out.append((s, BoolV(False)))
     if o.may("Some"):
         s = st.copy()
-        if I.install_guard(s, o.variants["Some"][1]):
+        if I.install_guard(s, o.variants["Some"][1], narrowed=len(o.variants) > 1):
             try:
                 s2, r = I.call_value(s, args[1], [I.resolve(s, o.payload("Some"))])
                 out.append((s2, r if isinstance(r, BoolV) else BoolV(None, None, deps_of(r))))
